@@ -32,6 +32,7 @@ pub enum P {
     /// native-chain accounts acting as senders on the protocol chain (meaningful when both chains share a prefix)
     N1,
     StakerAcct,
+    CollectorAcct,
 }
 pub fn who_addr(w: &Who, p: &P) -> String {
     match p {
@@ -51,6 +52,7 @@ pub fn who_addr(w: &Who, p: &P) -> String {
         P::HookCollector3 => crate::addr::hook_sender("channel-9", &w.collector, &w.pp),
         P::N1 => w.n1.clone(),
         P::StakerAcct => w.staker.clone(),
+        P::CollectorAcct => w.collector.clone(),
     }
 }
 pub fn all_principals() -> Vec<P> {
@@ -607,6 +609,9 @@ pub fn post_inv(cx: &Ctx, b: &Built, s: &StepOut) {
         claim(cx.f, "C08:rollback leaves storage byte-identical", s.pre.raw == s.post.raw);
         return;
     }
+    // C18: the contract keeps its records under the namespaces of the deployed layout
+    let ns = crate::world::namespaces(&s.post.raw);
+    claim(cx.f, "C18:every stored record lives under a namespace of the deployed storage layout", ns.iter().all(|n| crate::world::DEPLOYED_NAMESPACES.contains(&n.as_str())));
     let sn = &s.post;
     for c in scen::inv_structural(sn, &b.chain, &b.ghost) {
         let p = &c[..2];
@@ -1221,10 +1226,15 @@ pub fn post_op(cx: &Ctx, b: &Built, op: &Op, s: &StepOut) {
         Op::AddValidator { sender, which } => {
             if s.tx.is_ok() {
                 claim(f, "C08:validator set changes only for the admin", *sender == P::Admin);
-                claim(f, "C14:only a new, well-prefixed validator is added", *which == 0);
+                let added = match which {
+                    0 => who.val3.clone(),
+                    1 => who.val1.clone(),
+                    _ => String::new(),
+                };
+                claim(f, "C14:only a new, well-prefixed validator is added", !added.is_empty() && !pre.cfg.native_chain_config.validators.iter().any(|v| v.as_str() == added));
                 // the validator list is compared as a multiset: the property does not fix an order
                 let mut c = pre.cfg.clone();
-                c.native_chain_config.validators.push(cosmwasm_std::Addr::unchecked(who.val3.clone()));
+                c.native_chain_config.validators.push(cosmwasm_std::Addr::unchecked(added.clone()));
                 c.native_chain_config.validators.sort();
                 let mut p2 = post.cfg.clone();
                 p2.native_chain_config.validators.sort();
@@ -1234,7 +1244,7 @@ pub fn post_op(cx: &Ctx, b: &Built, op: &Op, s: &StepOut) {
         Op::RemoveValidator { sender, which } => {
             if s.tx.is_ok() {
                 claim(f, "C08:validator set changes only for the admin", *sender == P::Admin);
-                claim(f, "C14:only a listed validator is removed", *which == 0);
+                claim(f, "C14:only a listed validator is removed", *which == 0 && pre.cfg.native_chain_config.validators.iter().any(|v| v.as_str() == who.val1));
                 let mut c = pre.cfg.clone();
                 c.native_chain_config.validators.retain(|v| v.as_str() != who.val1);
                 c.native_chain_config.validators.sort();
